@@ -89,6 +89,22 @@ def run(rep: Report, tier: str) -> None:
 		wrote += 1
 		got = [unparse(e).split('source_map', 1)[-1] for e in v.elts]
 		r.check(got == ["['begin'][0]", "['begin'][1]", "['end'][0]", "['end'][1]"] and all('source_map' in unparse(e) for e in v.elts), f'writer:{kind}:source_map-order', (ENTRY, d.lineno), f'{kind}: __dumps writes the span as {got}; the reader restores (line, column, end_line, end_column) from (begin[0], begin[1], end[0], end[1]) — a multi-line {kind} would come back with a different span', unparse(v))
+	# the restored children are a re-iterable list (the view reads them more than once; a one-shot iterator is empty on the second reading)
+	from vlib.match import FI as _FI
+	lx = _FI(loads)
+	trees = [c_ for c_ in ast.walk(lx) if isinstance(c_, ast.Call) and attr_chain(c_.func) in ('lark.Tree', 'Tree') and len(c_.args) >= 2]
+	if not trees:
+		r.skip('reader-children-materialised', loads.where, '__loads no longer constructs lark.Tree(name, children, ...)')
+	for c_ in trees:
+		ch = c_.args[1]
+		lazy = isinstance(ch, ast.GeneratorExp) or (isinstance(ch, ast.Call) and unparse(ch.func) in ('map', 'filter', 'iter', 'reversed', 'zip'))
+		listy = isinstance(ch, (ast.List, ast.ListComp)) or (isinstance(ch, ast.Call) and unparse(ch.func) in ('list', 'tuple'))
+		if lazy:
+			r.violate('reader-children-materialised', (ENTRY, c_.lineno), f'__loads passes `{unparse(ch)[:80]}` as the children of the restored tree: a one-shot iterator yields the children on the first traversal only, every later reading (a second Nodes build after unload/load, Serialization.dumps of the restored tree) sees no children', unparse(c_)[:160])
+		elif listy or isinstance(ch, ast.Name):
+			r.ok('reader-children-materialised', (ENTRY, c_.lineno))
+		else:
+			r.skip('reader-children-materialised', (ENTRY, c_.lineno), f'children expression `{unparse(ch)[:60]}` not classified')
 	tds = typeddict_keys(m.tree)
 	for kind, td in (('tree', 'DumpTree'), ('token', 'DumpToken')):
 		if kind in shapes:
